@@ -131,7 +131,11 @@ func (g *scopeGen) stat() {
 			g.line(n + " = " + []string{"gfun(" + n + ")", g.exp(1), n, "function() return " + n + " end"}[g.r.Intn(4)])
 		}
 	case 7, 8, 9:
-		g.line(g.useName() + " = " + g.exp(2))
+		n := g.useName()
+		if n == "print" {
+			n = "G1" // never assign the built-in
+		}
+		g.line(n + " = " + g.exp(2))
 	case 10, 11:
 		g.line(g.useName() + "(" + g.exp(1) + ")")
 	case 12:
@@ -195,7 +199,7 @@ func (g *scopeGen) stat() {
 		g.funcBody("local " + n + " = function")
 		g.locals = append(g.locals, n)
 	case 20:
-		g.funcBody("function " + g.gpool[g.r.Intn(len(g.gpool))])
+		g.funcBody("function " + g.gpool[g.r.Intn(3)])
 	case 21:
 		g.line(g.gpool[g.r.Intn(3)] + " = " + g.exp(1))
 	case 22:
